@@ -141,7 +141,13 @@ def factorial_spec(levels, reps, seed=0, catkinds=None, numerics=("x", "z", "w")
         else:
             cols.append({"name": name, "kind": "cat", "values": vals, "categories": lv, "ordered": True})
     for j, name in enumerate(numerics):
-        cols.append({"name": name, "kind": "float", "values": [round(float(v), 6) for v in weyl(n, j, seed)]})
+        vals = weyl(n, j, seed)
+        if name == "w" and seed % 3 == 1:
+            # an integer-dtype numeric column (distinct integers in the order of the Weyl values)
+            ranks = np.argsort(np.argsort(vals))
+            cols.append({"name": name, "kind": "int", "values": [int(r) - n // 2 for r in ranks]})
+            continue
+        cols.append({"name": name, "kind": "float", "values": [round(float(v), 6) for v in vals]})
     cols.append({"name": "y", "kind": "float", "values": [round(float(v), 6) for v in weyl(n, 5, seed + 1, -3, 3)]})
     return {"cols": cols, "index": None}
 
